@@ -477,6 +477,14 @@ Qed.
 
 (* ------------------------------------------------------------------ constants, non-vacuity, remaining refutation *)
 
+(* TrackerUdp::prepare_announce writes the enum value itself as the BEP-15 event code: as long as it
+   does (trk_udp_event_raw = 1), the enumerator values must be the protocol's codes *)
+Lemma event_codes_bep15 :
+  Params.trk_udp_event_raw = 1 ->
+  Params.trk_event_none = wire_event EvNone /\ Params.trk_event_completed = wire_event EvCompleted /\
+  Params.trk_event_started = wire_event EvStarted /\ Params.trk_event_stopped = wire_event EvStopped.
+Proof. intros _. vm_compute. repeat split; reflexivity. Qed.
+
 Lemma backoff_table :
   map backoff [1; 2; 3; 4; 5; 6; 7; 8; 9; 100] = [5; 10; 20; 40; 80; 160; 300; 300; 300; 300].
 Proof. vm_compute. reflexivity. Qed.
